@@ -10,12 +10,16 @@ correspond harness/cx_export.cpp (plain, z, asan, asanz):
                  option grid; raw result arrays decoded with the extracted dec_paths/dec_tree and native results
                  re-encoded with the extracted enc_paths/enc_tree, compared exactly;
            return codes of invalid arguments against the evaluated translated prologue;
+           ZH    USINGZ variants: histories of SetZCallback64 / SetZCallbackD (fresh-tag, arbitrary-value, leave-z callbacks, null)
+                 and calls of the four boolean exports on inputs carrying z labels; every call against a fresh Clipper64 /
+                 ClipperD(precision) with SetZCallback(the callback the history says is registered) or none: x, y, z bit for bit,
+                 same path order, same callback invocations (count and argument hash); set / call / sibling export / reset / call;
            KE    the same calls with input arrays built by the harness's own encoder the way a C client may build them
                  (every path an entry, an empty one as `0, 0`, C counting every entry -- the library's creators never
                  write such an entry): decoders against the extracted dec_paths (theorem C17_dec_hand_built: exactly
                  those paths, empty ones included), each export against the native call on those paths.
 """
-import json, os, struct, sys, time, concurrent.futures as cf
+import json, os, re, struct, sys, time, concurrent.futures as cf
 import vf
 sys.path.insert(0, os.path.join(vf.VERIF, 'cpp2v'))
 import export_table
@@ -26,12 +30,14 @@ META = dict(
          'number of elements written, all writes inside the allocation and all reads inside the stated length '
          '(int64 and double arrays, with and without z); decode of an array a caller built from the documented layout with empty-path '
          'entries (`0, 0`) returns exactly those paths, empty ones included (C17_dec_hand_built); forwarding and validation-code theorems over a table '
-         'translated from the current clipper.export.h on every run.',
+         'translated from the current clipper.export.h on every run, incl. C17_zcallback_forwarded: in the USINGZ configuration each boolean '
+         'export hands the registration global of its family to SetZCallback of the clipper it executes, in front of Execute.',
     note='The array model is a hand model tied to the code by exact element-by-element correspondence on generated '
          'inputs (plain/USINGZ, ASan+UBSan), input arrays built by the harness\'s own encoder both the way the library writes them and with '
          'empty-path entries kept (which the library\'s creators never write); the forwarding table is regenerated from the source by clang JSON AST '
          '(trusted translator, cross-checked by the differential run of all 14 exports against native calls over the '
-         'option grid). Scaled double<->int64 conversions are compared with the library\'s own ScalePaths, not modelled.',
+         'option grid; the Z callback registration by histories of SetZCallback64/D and calls in the USINGZ variants, each call against the native '
+         'call with the same callback installed via SetZCallback). Scaled double<->int64 conversions are compared with the library\'s own ScalePaths, not modelled.',
     technique='Coq 8.16 proofs (induction over lists/trees, vm_compute over the translated table) + extracted OCaml '
               'oracle + differential C++ harness',
     category='proof')
@@ -41,7 +47,10 @@ FN_OF_CMD = {'BOOL64': 'BooleanOp64', 'BOOLD': 'BooleanOpD', 'TREE64': 'BooleanO
              'RC64': 'RectClip64', 'RCD': 'RectClipD', 'RCL64': 'RectClipLines64', 'RCLD': 'RectClipLinesD',
              'MS64': 'MinkowskiSum64', 'MD64': 'MinkowskiDiff64'}
 DKIND = {'BOOLD', 'TREED', 'INFLD', 'INFPD', 'RCD', 'RCLD', 'MKD', 'MKS', 'MTD', 'MPD', 'HKD', 'HKS'}
-TAGS = {'ARR', 'DEC', 'CMP', 'NAT', 'NATB', 'RC', 'UNTOUCHED', 'A1', 'A2', 'N1', 'N2', 'NT', 'PUB', 'NULLRET', 'EXC', 'ERR'}
+TAGS = {'ARR', 'DEC', 'CMP', 'NAT', 'NATB', 'RC', 'UNTOUCHED', 'A1', 'A2', 'N1', 'N2', 'NT', 'PUB', 'NULLRET', 'EXC', 'ERR', 'STEP', 'ST', 'CB'}
+# ZH (USINGZ variants only): histories of SetZCallback64/SetZCallbackD and calls of the four boolean exports
+ZH_FN = ['BOOL64', 'TREE64', 'BOOLD', 'TREED']            # fn code of a step -> command whose result format the step prints
+ZH_MODE = ['none', 'tag-fresh', 'write-arbitrary', 'leave-z']   # callback behaviours (0 = null pointer registered)
 
 
 def cmd_of(line):
@@ -409,6 +418,39 @@ def gen_cases(ctx, D):
         for closed in (0, 1):
             add('MS64', '%d %s %s' % (closed, fmt_p64(pat), fmt_p64(path)), is_closed=closed)
             add('MD64', '%d %s %s' % (closed, fmt_p64(pat), fmt_p64(path)), is_closed=closed)
+
+    # ---- Z callbacks registered through SetZCallback64 / SetZCallbackD (USINGZ only): histories of set / call steps
+    if D == 3:
+        nzh = 40 if quick else 300
+        for rep in range(nzh):
+            subj = g.pathset(rng.choice([4, 5, 6, 7, 2, 3, 4, 6]))
+            clip = g.pathset(rng.choice([2, 4, 5, 6, 7, 4]))
+            subo = g.openset() if rep % 3 else [g.poly(rng.range(2, 5))]
+            m, m2 = rng.range(1, 3), rng.range(1, 3)
+            s64, sD = (lambda mode: 1 + mode), (lambda mode: 5 + mode)     # set-op codes; mode 0 = null pointer
+            templates = [
+                # set, call, call the other export of the family (same global), reset to null, call, call
+                [(s64(m), 0), (0, 1), (s64(0), 0), (0, 1)],
+                [(sD(m), 2), (0, 3), (sD(0), 2), (0, 3)],
+                # tree export first; replace the callback by another one; reset
+                [(s64(m), 1), (0, 0), (s64(m2), 0), (s64(0), 1)],
+                [(sD(m), 3), (0, 2), (sD(m2), 2), (sD(0), 3)],
+                # the two registrations are independent of each other
+                [(s64(m), 2), (0, 0), (sD(m2), 0), (0, 3), (s64(0), 3), (sD(0), 1), (0, 2)],
+                # never set
+                [(0, 0), (0, 1), (0, 2), (0, 3)],
+                # arbitrary history
+                [(rng.below(9), rng.below(4)) for _ in range(rng.range(3, 6))],
+            ]
+            for steps in templates:
+                prec = rng.choice(PRECS)
+                st = [[so, fn, rng.choice([0, 1, rng.range(-(1 << 40), 1 << 40), rng.range(-1000, 1000)]), rng.next()] for so, fn in steps]
+                a = dict(cliptype=rng.range(1, 4) if rng.chance(9, 10) else 0, fillrule=rng.below(4), precision=prec, preserve_collinear=rng.below(2),
+                         reverse_solution=rng.below(2), nulls=rng.choice([0, 0, 0, 2, 4, 1]))
+                line = '%d %d %d %d %d %d %d %d %s %s %s %s' % (
+                    a['cliptype'], a['fillrule'], prec, a['preserve_collinear'], a['reverse_solution'], a['nulls'], bits(div_for(prec, rng)), len(st),
+                    ' '.join('%d %d %d %d' % tuple(x) for x in st), fmt_ps64(subj), fmt_ps64(subo), fmt_ps64(clip))
+                add('ZH', line, steps=[[x[0], ZH_FN[x[1]]] for x in st], **a)
     return cases
 
 
@@ -444,10 +486,11 @@ class Checker:
         self.D = D
         self.queries = []     # oracle lines
         self.expect = []      # (case index, what, expected text or None, kind)
+        self.where = ''       # prefix of `what` (the step of a ZH history)
 
     def q(self, idx, what, query, expected):
         self.queries.append(query)
-        self.expect.append((idx, what, expected))
+        self.expect.append((idx, self.where + what, expected))
 
     def arr_vs_native(self, idx, cmd, arr, nat, nullable_creator, null_by_prologue):
         D, e = self.D, ('F' if cmd in DKIND else 'I')
@@ -492,6 +535,109 @@ class Checker:
         return probs
 
 
+def zh_parse(line):
+    """ZH input line -> (steps [(setop, fn, base, salt)], {(x, y): set of z} over all input vertices)"""
+    t = line.split()[1:]
+    n = int(t[7])
+    steps = [tuple(int(x) for x in t[8 + 4 * i:12 + 4 * i]) for i in range(n)]
+    pos, locs = 8 + 4 * n, {}
+    for _ in range(3):
+        k = int(t[pos]); pos += 1
+        for _ in range(k):
+            m = int(t[pos]); pos += 1
+            for j in range(m):
+                locs.setdefault((t[pos], t[pos + 1]), set()).add(t[pos + 2])
+                pos += 3
+    return steps, locs
+
+
+def zh_check(ck, idx, line, res, stats):
+    """one ZH history: every step's registration state, callback log and result against the native call with the callback
+    the history says is registered (harness side), arrays against the extracted model (oracle queries via ck.add).
+    Returns [(fn name or None, problem)]."""
+    steps, locs = zh_parse(line)
+    secs = res.split(' | ')
+    if res.startswith(('EXC', 'ERR')) or len(secs) != len(steps):
+        return [(None, 'harness: ' + res[:200])]
+    probs = []
+    reg = {'64': 0, 'D': 0}            # the mode the history says is registered in dllCallback64 / dllCallbackD
+    ever = {'64': False, 'D': False}
+    setter_fn = {'64': None, 'D': None}  # the export called first after the last registration
+    by_fn = {}
+    stats['histories'] = stats.get('histories', 0) + 1
+    for k, ((setop, fn, base, salt), sec) in enumerate(zip(steps, secs)):
+        if 1 <= setop <= 4:
+            reg['64'] = setop - 1; ever['64'] = ever['64'] or setop > 1; setter_fn['64'] = None
+        elif setop >= 5:
+            reg['D'] = setop - 5; ever['D'] = ever['D'] or setop > 5; setter_fn['D'] = None
+        fam = '64' if fn < 2 else 'D'
+        mode = reg[fam]
+        name = FN_OF_CMD[ZH_FN[fn]]
+        hist = ' '.join('%s%s' % ({0: ''}.get(so, 'SetZCallback%s(%s);' % ('64' if so < 5 else 'D', ZH_MODE[(so - 1) % 4])), FN_OF_CMD[ZH_FN[f2]])
+                        for so, f2, _, _ in steps[:k + 1])
+        where = 'step %d %s with callback %s registered by the history [%s]: ' % (k, name, ZH_MODE[mode], hist)
+        f = split_tags(sec)
+        if 'EXC' in f or 'ERR' in f or f.get('STEP') != [str(fn)] or len(f.get('ST', [])) != 4:
+            probs.append((name, where + 'harness: ' + sec[:200]))
+            continue
+        want = [str(int(reg['64'] != 0)), str(int(reg['D'] != 0))]
+        if f['ST'][2:] != want:
+            probs.append((name, where + 'harness: its view of the history %s differs from the check\'s %s' % (f['ST'][2:], want)))
+            continue
+        if f['ST'][:2] != want:
+            # a look at the two globals, not a verdict (the verdict is the behaviour of the call below): named in the message only
+            where = where[:-2] + ' {the globals dllCallback64 / dllCallbackD hold a callback: %s, the history says: %s}: ' % (' '.join(f['ST'][:2]), ' '.join(want))
+            stats['steps_where_the_globals_disagree_with_the_history'] = stats.get('steps_where_the_globals_disagree_with_the_history', 0) + 1
+        if f.get('RC') != ['0']:
+            probs.append((name, where + 'return code %s for valid arguments' % f.get('RC')))
+            continue
+        cb = f.get('CB', [])
+        if len(cb) != 4:
+            probs.append((name, where + 'harness: ' + sec[:200]))
+            continue
+        if cb[:2] != cb[2:]:
+            probs.append((name, where + 'callback invocations differ: exported call %s invocations (argument hash %s), native call with '
+                                         'SetZCallback %s invocations (argument hash %s)' % (cb[0], cb[1], cb[2], cb[3])))
+        if mode == 0 and cb[0] != '0':
+            probs.append((name, where + 'a callback was invoked %s times although none is registered' % cb[0]))
+        ck.where = 'ZH ' + where
+        for p in ck.add(idx, ZH_FN[fn], sec):
+            probs.append((name, where + p + ' (x, y and z compared bit for bit, same path order)'))
+        ck.where = ''
+        # ---- evidence
+        stats['steps'] = stats.get('steps', 0) + 1
+        stats.setdefault('steps_by_export_and_callback', {}).setdefault(name, {}).setdefault(ZH_MODE[mode], 0)
+        stats['steps_by_export_and_callback'][name][ZH_MODE[mode]] += 1
+        if cb[0] != '0':
+            stats['steps_where_the_callback_was_invoked'] = stats.get('steps_where_the_callback_was_invoked', 0) + 1
+        if mode == 0 and ever[fam]:
+            stats['steps_after_reset_to_null'] = stats.get('steps_after_reset_to_null', 0) + 1
+        if mode != 0:
+            if setter_fn[fam] is None:
+                setter_fn[fam] = fn
+            elif setter_fn[fam] != fn:
+                stats['steps_seeing_a_registration_first_used_by_the_other_export'] = stats.get('steps_seeing_a_registration_first_used_by_the_other_export', 0) + 1
+        by_fn.setdefault(fn, {}).setdefault(mode != 0, set()).add(' '.join(f.get('N1', []) + f.get('NT', []) + ['/'] + f.get('N2', [])))
+        if fn == 0 and 'N1' in f:
+            t = f['N1']; pos = 1
+            for _ in range(int(t[0])):
+                m = int(t[pos]); pos += 1
+                for j in range(m):
+                    zs = locs.get((t[pos], t[pos + 1]))
+                    if zs is not None:
+                        d = stats.setdefault('BooleanOp64_result_vertices_at_input_locations', {}).setdefault(ZH_MODE[mode], [0, 0])
+                        d[1] += 1                  # [carrying a z given at that location, all]
+                        if t[pos + 2] in zs:
+                            d[0] += 1
+                    pos += 3
+    both = [fn for fn, d in by_fn.items() if True in d and False in d]
+    if both:
+        stats['histories_with_and_without_callback_on_one_export'] = stats.get('histories_with_and_without_callback_on_one_export', 0) + 1
+        if any(by_fn[fn][True] != by_fn[fn][False] for fn in both):
+            stats['of_which_the_native_results_differ'] = stats.get('of_which_the_native_results_differ', 0) + 1
+    return probs
+
+
 def run_variant(ctx, exe, oracle, cases, D, variant, sample_every=1):
     """returns list of failures: dict(cmd, line, info, why)"""
     lines = [c[1] for c in cases]
@@ -529,7 +675,12 @@ def run_variant(ctx, exe, oracle, cases, D, variant, sample_every=1):
         return failures, 0
     ck = Checker(D)
     pairs = {}
+    zstats = {}
     for idx, ((cmd, line, info), res) in enumerate(zip(cases, out)):
+        if cmd == 'ZH':
+            for fn, p in zh_check(ck, idx, line, res, zstats):
+                failures.append(dict(cmd=cmd, line=line, info=info, variant=variant, why=p, zfn=fn))
+            continue
         probs = ck.add(idx, cmd, res)
         f = split_tags(res)
         if 'pair' in info:
@@ -605,6 +756,8 @@ def run_variant(ctx, exe, oracle, cases, D, variant, sample_every=1):
             d[1] += 1
             if len(res) == 2 and res[0] != res[1]:
                 d[0] += 1
+    if zstats:
+        ctx.cov['z_callback_histories_' + variant] = zstats
     ctx.count('oracle_queries', len(ck.queries))
     ctx.log('%s: %d cases, %d oracle queries, %d failures in %.1fs' % (variant, len(cases), len(ck.queries), len(failures), time.time() - t0))
     return failures, len(cases)
@@ -614,6 +767,9 @@ def classify(fl):
     cmd = fl['cmd']
     if 'crashed' in fl['why'] or 'sanitizer' in fl['why'] or 'shard failed' in fl['why']:
         return 'export.memory.%s' % cmd
+    if cmd == 'ZH':
+        m = re.search(r'step \d+ (\w+) with callback', fl['why'])
+        return 'export.zcallback.%s' % (fl.get('zfn') or (m.group(1) if m else 'history'))
     if cmd in FN_OF_CMD:
         if 'return code' in fl['why'] or 'error code' in fl['why'] or 'nullptr' in fl['why']:
             return 'export.codes.%s' % FN_OF_CMD[cmd]
@@ -712,7 +868,17 @@ def run(ctx):
                         'size_t arithmetic of GetPathCountAndCPathsArrayLen modelled in unbounded nat',
                         'scaled conversions (CreateCPathsDFromPaths64, ConvertCPathsDToPaths64, ConvertCPathDToPath64WithScale) compared '
                         'with the library\'s ScalePaths, not modelled in Coq',
-                        'Z callbacks are not registered (dllCallback64/D null)']
+                        'Z callbacks: registered only in the ZH histories of the USINGZ variants (z, asanz) through SetZCallback64/SetZCallbackD '
+                        '(three behaviours: fresh tag, arbitrary value, z left alone; plus null); every other case runs with none registered; '
+                        'each input line starts with both registrations cleared by direct assignment (state of a freshly loaded library)']
+    ctx.cov['z_callback_shared_state'] = (
+        'the registered callbacks live in two header-level globals of clipper.export.h (ZCallback64 dllCallback64, ZCallbackD dllCallbackD; '
+        'C14 lists the header statics): BooleanOp64 and BooleanOp_PolyTree64 both read dllCallback64, BooleanOpD and BooleanOp_PolyTreeD both read '
+        'dllCallbackD, SetZCallback64/SetZCallbackD are the only writers; a registration therefore persists over calls and is seen by the other export of '
+        'the family until it is replaced or reset with a null pointer -- the ZH histories (set, call, call the sibling export, reset to null, call; '
+        'replace; 64/D independence; never set; random) judge exactly this: each call must equal the native call on a fresh Clipper64 / '
+        'ClipperD(precision) with SetZCallback(the callback the history says is registered) -- x, y and z bit for bit, same path order, same '
+        'number of callback invocations with the same arguments -- or with no callback after a reset / before any registration')
     # ---- 5. decide
     by_key = {}
     for fl in all_fail:
